@@ -14,7 +14,7 @@ def bconsts(tier, **kw):
         c = consts(MaxSize=3, NBranch=2, ForkAt=Sub("Fork_2"), Olds={0, 1, 2, 3, 4}, BadKinds={"flip", "drop", "add", "random", "short"}, BadAuths=B_AUTH, WithUnknown=False)
     else:
         c = consts(MaxSize=4, NBranch=3, ForkAt=Sub("Fork_2_0"), Olds={0, 1, 2, 3, 4, 5}, BadKinds={"flip", "drop", "add", "random", "short"}, BadAuths=B_AUTH, WithUnknown=False)
-    c.update(Burst=1, Malformed=MALFORMED)
+    c.update(Burst=1, Malformed=MALFORMED, Exts={0, 1})
     c.update(kw)
     return c
 
